@@ -1,10 +1,11 @@
 """C14 - multi-file mode partitions types by crate and imports cross-crate references.
-Proof: Props/C14.v (29 theorems: partition = find_crate_name of the path, every file holds exactly the declarations of
+Proof: Props/C14.v (31 theorems: partition = find_crate_name of the path, every file holds exactly the declarations of
 its crate's sources, union over the files = the single-file run; imports sound unconditionally - an import names a
-TYPE of its module, never a const -, complete on dom_C14 = named references and references covered by a glob import,
+TYPE of its module, never a const -, complete on dom_C14 = named references (serde-renamed targets included: the import
+names the generated name) and references covered by a glob import,
 good_C14 holds of the model for every workspace and every iteration order, the import list used_imports builds does not
 depend on the iteration order of the import set (as a set of pairs and as a value); one witness per open finding class, one regression pin per class repaired in
-/repo: C14-glob, C14-glob-order, C14-glob-const).
+/repo: C14-glob, C14-glob-order, C14-glob-const, C14-renamed-import).
 Correspondence, through the REAL BINARY with `-d`: generated workspaces of 1-5 crates (directory names with
 dashes / underscores / digits, files at depth 0-3 under <crate>/src, files outside any src, nested
 src/../src), cross-crate references introduced by every `use` form of the property and by qualified
@@ -371,7 +372,26 @@ def corpus():
         w.tags.add('corpus:' + name)
         out.append(w)
     mk('two-crates', {'a/src/lib.rs': A, 'b/src/m/x.rs': 'use a::A1;\nuse a::{A3};\n#[typeshare]\npub struct B1 { pub f: A1, pub g: Vec<A3>, pub h: a::inner::A1 }\n'})
+    # former witness of C14-renamed-import (a serde-renamed type of another crate was referenced under its new name and never
+    # imported), repaired in /repo (reconcile.rs:71: the import set is put back with the generated names): it must PASS, and so
+    # must every other way of naming a renamed type of another crate
     mk('renamed-import', {'a/src/lib.rs': A, 'b/src/lib.rs': 'use a::A2;\n#[typeshare]\npub struct B1 { pub f: A2 }\n'})
+    mk('renamed-import-path', {'a/src/lib.rs': A, 'b/src/lib.rs': '#[typeshare]\npub struct B1 { pub f: a::A2, pub g: Vec<a::m::A2> }\n'})
+    mk('renamed-import-grouped', {'a/src/lib.rs': A, 'b/src/d1/x.rs': 'use a::{A1, m::{A2}};\n#[typeshare]\n#[serde(tag = "t", content = "c")]\npub enum E1 { V0(A2), V1 { f: Option<A1> } }\n'})
+    # two files of the importing crate, one importing the renamed type, the other one another type of the same crate; a
+    # third crate with a type CALLED like the generated name of the renamed one (a::A2 -> A2Renamed, e::A2Renamed)
+    mk('renamed-import-two-files', {'a/src/lib.rs': A, 'e/src/lib.rs': '#[typeshare]\npub struct A2Renamed { pub q: u8 }\n',
+                                    'b/src/lib.rs': 'use a::A2;\n#[typeshare]\npub struct B1 { pub f: A2 }\n',
+                                    'b/src/m.rs': 'use a::A3;\n#[typeshare]\npub type L1 = Vec<A3>;\n'}, reps=4, mix=True)
+    # renamed enum, renamed alias and renamed generic struct as targets; the renamed generic is referenced with arguments
+    mk('renamed-import-kinds', {'a/src/lib.rs': '#[typeshare]\n#[serde(rename = "ColorName")]\npub enum Color { Red, Green }\n'
+                                                '#[typeshare]\n#[serde(rename = "UserId")]\npub type Id = String;\n'
+                                                '#[typeshare]\n#[serde(rename = "PageOf")]\npub struct Page<T> { pub items: Vec<T> }\n',
+                                'b/src/lib.rs': 'use a::{Color, Id};\nuse a::Page;\n#[typeshare]\npub struct B1 { pub c: Color, pub i: Option<Id>, pub p: Page<Color>, pub q: a::Page<u8> }\n'})
+    # a type with the Rust name of the imported one exists in a third crate that the use does NOT name (before the repair the
+    # import of a::A2 missed in a's table and the fallback imported e's A2 instead)
+    mk('renamed-import-third-crate-same-rust-name', {'a/src/lib.rs': A, 'e/src/lib.rs': '#[typeshare]\npub struct A2 { pub q: u8 }\n',
+                                                     'b/src/lib.rs': 'use a::A2;\n#[typeshare]\npub struct B1 { pub f: A2 }\n'}, reps=4, mix=True)
     # former witnesses of C14-glob (a glob imported nothing) and C14-glob-order (its effect depended on the HashSet order),
     # repaired in /repo (mod.rs:472): they must PASS, and give one output in every run
     mk('glob', {'a/src/lib.rs': A, 'my-crate/src/lib.rs': 'use a::*;\n#[typeshare]\npub struct C1 { pub f: A1 }\n'}, reps=6, mix=True)
@@ -687,6 +707,8 @@ def run(chk):
                             chk.count('references_judged')
                             if r['dom']:
                                 chk.count('references_in_domain')
+                                if r['generated'] != r['name']:      # a serde-renamed target (in the domain since the /repo fix of C14-renamed-import)
+                                    chk.count('renamed_references_in_domain')
                             if not r['imported']:
                                 if r['known']:
                                     bad.append((f'{c}: {r["generated"]} (from {r["from"]}) is used but not imported', r['known']))
